@@ -41,6 +41,17 @@ func VerifC12Sequence() {
 
 	exists := false
 	var model []byte
+	if verifPick("init", 0, 1) == 1 {
+		// the object starts as a completed multipart upload (1-based part numbers)
+		up, err := e.st.CreateMultipartUpload(verifCtx, e.bucket, key, &ct, nil, nil)
+		verifMust(err)
+		p1 := verifBody("mp", 1)
+		_, err = e.st.UploadPart(verifCtx, e.bucket, key, up.UploadId, 1, bytes.NewReader(p1), nil)
+		verifMust(err)
+		_, err = e.st.CompleteMultipartUpload(verifCtx, e.bucket, key, up.UploadId, nil, nil)
+		verifMust(err)
+		exists, model = true, p1
+	}
 
 	for s := 0; s < steps; s++ {
 		switch verifPick("op", 0, 3) {
